@@ -259,6 +259,7 @@ func runC19(c *Ctx) {
 		c.fanOutAll()
 	})
 
+	c.rule("C19.V3", "a live subscriber stays in the fan-out: "+monotonicSubscriberIDsDoc, func() { c.monotonicSubscriberIDs() })
 	c.rule("C19.V2", "the block manager is never more than one event ahead of the subscription manager: blockNtfnChan is made without capacity (a new subscriber's backlog is computed from the stores at registration time; events still queued from before that moment, e.g. of a branch that has since been rolled back, would be replayed on top of it)", func() { c.ntfnRendezvous() })
 
 	c.rule("C19.V1", backlogBoundDoc, func() { c.backlogBound() })
@@ -455,67 +456,67 @@ const disconnectPayloadDoc = "rollBackToHeight: each removed block is announced 
 // disconnectPayload: see disconnectPayloadDoc.
 func (c *Ctx) disconnectPayload() {
 	bhs := func(m string) *types.Func { return c.method("headerfs", "BlockHeaderStore", m) }
-		fn := c.fn(fnRollBack)
-		demits := c.emitSites(fn, "onBlockDisconnected", "NewBlockDisconnected")
-		disc := emitIns(demits)
-		rb := find(fn, callTo(bhs("RollbackLastBlock")))
-		c.guarded(fn, errNil("BlockHeaders.RollbackLastBlock", rb, 1), 1, "onBlockDisconnected", disc, 1, gDominate)
-		c.mustFollowIter(fn, "block header rolled back", c.successEdges(errNil("BlockHeaders.RollbackLastBlock", rb, 1)), oneOf(disc), "onBlockDisconnected", func() ir.Cut {
-			// the only exit without an event: failing to read the new tip header
-			cut := ir.Cut{}
-			for _, in := range find(fn, callTo(bhs("FetchHeader"))) {
-				for _, r := range ir.Result(in.(ssa.Value), 2) {
-					for _, br := range ir.NilBranches(r) {
-						cut[br.Other()] = true
-					}
+	fn := c.fn(fnRollBack)
+	demits := c.emitSites(fn, "onBlockDisconnected", "NewBlockDisconnected")
+	disc := emitIns(demits)
+	rb := find(fn, callTo(bhs("RollbackLastBlock")))
+	c.guarded(fn, errNil("BlockHeaders.RollbackLastBlock", rb, 1), 1, "onBlockDisconnected", disc, 1, gDominate)
+	c.mustFollowIter(fn, "block header rolled back", c.successEdges(errNil("BlockHeaders.RollbackLastBlock", rb, 1)), oneOf(disc), "onBlockDisconnected", func() ir.Cut {
+		// the only exit without an event: failing to read the new tip header
+		cut := ir.Cut{}
+		for _, in := range find(fn, callTo(bhs("FetchHeader"))) {
+			for _, r := range ir.Result(in.(ssa.Value), 2) {
+				for _, br := range ir.NilBranches(r) {
+					cut[br.Other()] = true
 				}
 			}
-			return cut
-		}(), 1)
-		// no block header leaves the store without an event: in the root package
-		// the only removal of block headers is that one RollbackLastBlock call,
-		// inside the per-block loop (a bulk RollbackBlockHeaders would drop
-		// blocks silently); the importer's compensating rollback touches headers
-		// that were never announced
-		c.whoMay("removal of block headers from the store (RollbackLastBlock / RollbackBlockHeaders)", callTo(bhs("RollbackLastBlock"), bhs("RollbackBlockHeaders")), []string{fnRollBack, "(*chainimport.headersImport).writeHeadersToTargetStores", "(*headerfs.blockHeaderStore).RollbackLastBlock"}, 2)
-		okOne := len(rb) == 1 && ir.LoopHeaderOf(rb[0].Block()) != nil && len(find(fn, callTo(bhs("RollbackBlockHeaders")))) == 0
-		c.verdict(okOne, c.nm(fn)+" | block headers are removed one per loop iteration", c.P.Pos(fn.Pos()), "a single RollbackLastBlock inside the loop", fmt.Sprintf("rollBackToHeight removes block headers at %d RollbackLastBlock site(s) and %d bulk RollbackBlockHeaders site(s): headers removed outside the per-block loop get no Disconnected event", len(rb), len(find(fn, callTo(bhs("RollbackBlockHeaders"))))))
-		stampHash := c.field("headerfs", "BlockStamp", "Hash")
-		prevBlock := c.field(pWire, "BlockHeader", "PrevBlock")
-		fetches := find(fn, callTo(bhs("FetchHeader")))
-		var oldFetch, newFetch ssa.Value
-		for _, f := range fetches {
-			a := argsOf(f)[0]
-			switch {
-			case ir.DerivesFrom(a, func(x ssa.Value) bool { return fieldAddrOf(stampHash)(x) }):
-				oldFetch = f.(ssa.Value)
-			case ir.DerivesFrom(a, func(x ssa.Value) bool { return fieldAddrOf(prevBlock)(x) }):
-				newFetch = f.(ssa.Value)
-			}
 		}
-		okv := len(disc) == 1 && oldFetch != nil && newFetch != nil
+		return cut
+	}(), 1)
+	// no block header leaves the store without an event: in the root package
+	// the only removal of block headers is that one RollbackLastBlock call,
+	// inside the per-block loop (a bulk RollbackBlockHeaders would drop
+	// blocks silently); the importer's compensating rollback touches headers
+	// that were never announced
+	c.whoMay("removal of block headers from the store (RollbackLastBlock / RollbackBlockHeaders)", callTo(bhs("RollbackLastBlock"), bhs("RollbackBlockHeaders")), []string{fnRollBack, "(*chainimport.headersImport).writeHeadersToTargetStores", "(*headerfs.blockHeaderStore).RollbackLastBlock"}, 2)
+	okOne := len(rb) == 1 && ir.LoopHeaderOf(rb[0].Block()) != nil && len(find(fn, callTo(bhs("RollbackBlockHeaders")))) == 0
+	c.verdict(okOne, c.nm(fn)+" | block headers are removed one per loop iteration", c.P.Pos(fn.Pos()), "a single RollbackLastBlock inside the loop", fmt.Sprintf("rollBackToHeight removes block headers at %d RollbackLastBlock site(s) and %d bulk RollbackBlockHeaders site(s): headers removed outside the per-block loop get no Disconnected event", len(rb), len(find(fn, callTo(bhs("RollbackBlockHeaders"))))))
+	stampHash := c.field("headerfs", "BlockStamp", "Hash")
+	prevBlock := c.field(pWire, "BlockHeader", "PrevBlock")
+	fetches := find(fn, callTo(bhs("FetchHeader")))
+	var oldFetch, newFetch ssa.Value
+	for _, f := range fetches {
+		a := argsOf(f)[0]
+		switch {
+		case ir.DerivesFrom(a, func(x ssa.Value) bool { return fieldAddrOf(stampHash)(x) }):
+			oldFetch = f.(ssa.Value)
+		case ir.DerivesFrom(a, func(x ssa.Value) bool { return fieldAddrOf(prevBlock)(x) }):
+			newFetch = f.(ssa.Value)
+		}
+	}
+	okv := len(disc) == 1 && oldFetch != nil && newFetch != nil
+	if okv {
+		a := demits[0].args
+		from := func(v, call ssa.Value, idx int) bool {
+			return ir.DerivesFrom(v, func(x ssa.Value) bool {
+				e, ok := x.(*ssa.Extract)
+				return ok && e.Tuple == call && e.Index == idx
+			})
+		}
+		okv = from(a[0], oldFetch, 0) && from(a[1], oldFetch, 1) && from(a[2], newFetch, 0)
+		// old header fetched before the rollback
 		if okv {
-			a := demits[0].args
-			from := func(v, call ssa.Value, idx int) bool {
-				return ir.DerivesFrom(v, func(x ssa.Value) bool {
-					e, ok := x.(*ssa.Extract)
-					return ok && e.Tuple == call && e.Index == idx
-				})
-			}
-			okv = from(a[0], oldFetch, 0) && from(a[1], oldFetch, 1) && from(a[2], newFetch, 0)
-			// old header fetched before the rollback
-			if okv {
-				before := false
-				ir.WalkAfter(oldFetch.(ssa.Instruction), ir.BackEdges(fn), func(in ssa.Instruction) bool {
-					if in == rb[0] {
-						before = true
-					}
-					return true
-				})
-				okv = before
-			}
+			before := false
+			ir.WalkAfter(oldFetch.(ssa.Instruction), ir.BackEdges(fn), func(in ssa.Instruction) bool {
+				if in == rb[0] {
+					before = true
+				}
+				return true
+			})
+			okv = before
 		}
-		c.verdict(okv, c.nm(fn)+" | onBlockDisconnected(header@bs.Hash fetched before rollback, its height, header@newTip)", c.P.Pos(fn.Pos()), "arguments have the tabled provenance", "the disconnected event does not carry (old tip header, its height, new tip header) as fetched around the rollback", c.ats(disc)...)
+	}
+	c.verdict(okv, c.nm(fn)+" | onBlockDisconnected(header@bs.Hash fetched before rollback, its height, header@newTip)", c.P.Pos(fn.Pos()), "arguments have the tabled provenance", "the disconnected event does not carry (old tip header, its height, new tip header) as fetched around the rollback", c.ats(disc)...)
 }
 
 const filterTipMirrorDoc = "mirror maintenance: filterHeaderTip/filterHeaderTipHash mirror the filter-header store's tip and bound the backlog; every blockManager function that mutates cfg.RegFilterHeaders (WriteHeaders, RollbackLastBlock) stores the new tip under newFilterHeadersMtx on its success path"
@@ -524,61 +525,61 @@ const filterTipMirrorDoc = "mirror maintenance: filterHeaderTip/filterHeaderTipH
 func (c *Ctx) filterTipMirror() {
 	fhs := func(m string) *types.Func { return c.method("headerfs", "FilterHeaderStore", m) }
 	bm := func(f string) *types.Var { return c.field("neutrino", "blockManager", f) }
-		mut := callTo(fhs("WriteHeaders"), fhs("RollbackLastBlock"))
-		n := 0
-		res := c.lockResults()
-		key := lockKey{bm("newFilterHeadersMtx")}
-		for _, fn := range c.P.Funcs {
-			if c.P.Name(fn) == "" || fn.Parent() != nil {
-				continue
-			}
-			obj, _ := fn.Object().(*types.Func)
-			if obj == nil {
-				continue
-			}
-			sig := obj.Type().(*types.Signature)
-			if sig.Recv() == nil || !types.Identical(sig.Recv().Type(), types.NewPointer(c.P.Named("neutrino", "blockManager"))) {
-				continue
-			}
-			sites := find(fn, mut)
-			if len(sites) == 0 {
-				continue
-			}
-			n++
-			c.R.Funcs[c.nm(fn)] = true
-			construct := c.nm(fn) + " | filter store mutated => filterHeaderTip updated under newFilterHeadersMtx"
-			var g guard
-			for _, s := range sites {
-				idx := 0
-				if callTo(fhs("RollbackLastBlock"))(s) {
-					idx = 1
-				}
-				g2 := errNil(describeCall(s), []ssa.Instruction{s}, idx)
-				g.sites = append(g.sites, g2.sites...)
-			}
-			g.name = "filter store mutation succeeded"
-			st := storeToField(bm("filterHeaderTip"))
-			stH := storeToField(bm("filterHeaderTipHash"))
-			if len(find(fn, st)) == 0 {
-				c.fail(construct, c.at(sites[0]), fmt.Sprintf("%s changes the filter-header store (%s) but never updates b.filterHeaderTip: after it the in-memory tip (bound of NotificationsSinceHeight and of the filter sync) no longer equals the store's tip", c.nm(fn), join(c.ats(sites))), c.ats(sites)...)
-				continue
-			}
-			okA := c.mustFollowOptQuiet(fn, c.successEdges(g), st)
-			okB := c.mustFollowOptQuiet(fn, c.successEdges(g), stH)
-			okL := true
-			for _, s := range append(find(fn, st), find(fn, stH)...) {
-				if res[fn].mustHold[s][key] != "W" {
-					okL = false
-				}
-			}
-			c.verdict(okA && okB && okL, construct, c.P.Pos(fn.Pos()), "both mirror fields stored under the mutex after the mutation", "a success path of the store mutation skips the update of filterHeaderTip/filterHeaderTipHash, or the update is not under newFilterHeadersMtx", c.ats(sites)...)
-			// ... and only then: the mirror moves with the filter store, not
-			// with the block headers (blocks above the filter tip have no
-			// committed filter header; a mirror raised to them makes the
-			// backlog offer blocks that were never announced)
-			c.guarded(fn, g, 1, "filterHeaderTip = .. (the mirror moves)", find(fn, st), 1, gDominate)
+	mut := callTo(fhs("WriteHeaders"), fhs("RollbackLastBlock"))
+	n := 0
+	res := c.lockResults()
+	key := lockKey{bm("newFilterHeadersMtx")}
+	for _, fn := range c.P.Funcs {
+		if c.P.Name(fn) == "" || fn.Parent() != nil {
+			continue
 		}
-		if n < 2 {
-			c.undecided("functions mutating RegFilterHeaders | floor", "", fmt.Sprintf("found %d, need 2", n))
+		obj, _ := fn.Object().(*types.Func)
+		if obj == nil {
+			continue
 		}
+		sig := obj.Type().(*types.Signature)
+		if sig.Recv() == nil || !types.Identical(sig.Recv().Type(), types.NewPointer(c.P.Named("neutrino", "blockManager"))) {
+			continue
+		}
+		sites := find(fn, mut)
+		if len(sites) == 0 {
+			continue
+		}
+		n++
+		c.R.Funcs[c.nm(fn)] = true
+		construct := c.nm(fn) + " | filter store mutated => filterHeaderTip updated under newFilterHeadersMtx"
+		var g guard
+		for _, s := range sites {
+			idx := 0
+			if callTo(fhs("RollbackLastBlock"))(s) {
+				idx = 1
+			}
+			g2 := errNil(describeCall(s), []ssa.Instruction{s}, idx)
+			g.sites = append(g.sites, g2.sites...)
+		}
+		g.name = "filter store mutation succeeded"
+		st := storeToField(bm("filterHeaderTip"))
+		stH := storeToField(bm("filterHeaderTipHash"))
+		if len(find(fn, st)) == 0 {
+			c.fail(construct, c.at(sites[0]), fmt.Sprintf("%s changes the filter-header store (%s) but never updates b.filterHeaderTip: after it the in-memory tip (bound of NotificationsSinceHeight and of the filter sync) no longer equals the store's tip", c.nm(fn), join(c.ats(sites))), c.ats(sites)...)
+			continue
+		}
+		okA := c.mustFollowOptQuiet(fn, c.successEdges(g), st)
+		okB := c.mustFollowOptQuiet(fn, c.successEdges(g), stH)
+		okL := true
+		for _, s := range append(find(fn, st), find(fn, stH)...) {
+			if res[fn].mustHold[s][key] != "W" {
+				okL = false
+			}
+		}
+		c.verdict(okA && okB && okL, construct, c.P.Pos(fn.Pos()), "both mirror fields stored under the mutex after the mutation", "a success path of the store mutation skips the update of filterHeaderTip/filterHeaderTipHash, or the update is not under newFilterHeadersMtx", c.ats(sites)...)
+		// ... and only then: the mirror moves with the filter store, not
+		// with the block headers (blocks above the filter tip have no
+		// committed filter header; a mirror raised to them makes the
+		// backlog offer blocks that were never announced)
+		c.guarded(fn, g, 1, "filterHeaderTip = .. (the mirror moves)", find(fn, st), 1, gDominate)
+	}
+	if n < 2 {
+		c.undecided("functions mutating RegFilterHeaders | floor", "", fmt.Sprintf("found %d, need 2", n))
+	}
 }
